@@ -114,7 +114,8 @@ func (g *gen) genFuncFor(in types.Type) error {
 		p.P("return dst")
 	default:
 		p.P("dst := new(%s)", inStr)
-		p.P("%s(dst, &src)", g.deepcopy.GetFuncName(types.NewPointer(in)))
+		// in may be the type of an untyped constant argument
+		p.P("%s(dst, &src)", g.deepcopy.GetFuncName(types.NewPointer(types.Default(in))))
 		p.P("return *dst")
 	}
 	p.Out()
